@@ -478,6 +478,16 @@ def r12_placeholder_ids_are_negative(idx, r):
                       "lookups by its name and its history break")
 
 
+def location_table_fresh_rule(idx, r):
+    """shared with C13 (R13.10): Core.getLocationContents builds its table for the call; nothing about occupancy is cached on the core"""
+    g = idx.method(CORE, "getLocationContents")
+    memo = [s_ for s_ in iter_stores(g.node) if s_.chain and s_.chain.startswith("self.")] + [c for c in iter_calls(g.node) if dotted(c.func) in ("self._setCache", "self._getCached")]
+    lc = [s_ for s_ in iter_stores(g.node) if s_.attr == "locContents" and isinstance(s_.node, ast.Name) and s_.value is not None]
+    fresh = bool(lc) and all(isinstance(s_.value, ast.Call) and dotted(s_.value.func) == "self.makeLocationLookup" for s_ in lc)
+    r.require(not memo and fresh, "getLocationContents:table-built-for-this-call", g, node=(getattr(memo[0], "stmt", memo[0]) if memo else (lc[0].stmt if lc else None)),
+              msg="the location table is remembered on the core between calls: after a swap, a cascade or added/removed edge assemblies the next look-up answers with the assemblies that USED to be there")
+
+
 def r13_cascade_lookup_numbering(idx, r):
     """(a) swapCascade skips a level whose assembly is None: the entry tested is the entry handed to swapAssemblies in that iteration.
     (b) getLocationContents answers from a table built for THIS call (or handed in by the caller): a table remembered on the core is stale
@@ -492,13 +502,7 @@ def r13_cascade_lookup_numbering(idx, r):
     moving = norm(sw.args[1])
     r.require(bool(guards) and all(moving in norm(gd.test) for gd in guards), "swapCascade:guard-tests-the-assembly-swapped-in", f, node=guards[0] if guards else sw,
               msg=f"the level is skipped when `{norm(guards[0].test) if guards else ''}`, but the assembly handed to swapAssemblies is `{moving}`: a None in the cascade makes the NEXT real assembly stay where it is")
-    g = idx.method(CORE, "getLocationContents")
-    memo = [s_ for s_ in iter_stores(g.node) if s_.chain and s_.chain.startswith("self.")]
-    lc = [s_ for s_ in iter_stores(g.node) if s_.attr == "locContents" and isinstance(s_.node, ast.Name) and s_.value is not None]
-    env = single_assign_env(g.node)
-    fresh = bool(lc) and all(isinstance(s_.value, ast.Call) and dotted(s_.value.func) == "self.makeLocationLookup" for s_ in lc)
-    r.require(not memo and fresh, "getLocationContents:table-built-for-this-call", g, node=(memo[0].stmt if memo else (lc[0].stmt if lc else None)),
-              msg="the location table is remembered on the core between calls: after a swap or cascade (same number of assemblies) the next look-up answers with the assemblies that USED to be there")
+    location_table_fresh_rule(idx, r)
     h = idx.method("armi.reactor.reactors.Reactor", "normalizeNames")
     rn = [x for x in walk_local(h.node) if isinstance(x, ast.Assign) and isinstance(x.value, ast.Call) and call_attr(x.value) == "normalizeNames" and isinstance(x.targets[0], ast.Name)]
     if len(rn) < 2:
